@@ -266,8 +266,10 @@ func (ts *Time) UnmarshalJSON(data []byte) error {
 	}
 	switch x := v.(type) {
 	case float64:
-		// the conversion of a float outside the int64 range (or NaN) is implementation defined
-		if x != x || x >= 1<<63 || x < -(1<<63) {
+		// the conversion of a float outside the int64 range (or NaN) is implementation defined;
+		// time.Unix counts from year 1 and adds the 62135596800 seconds up to 1970 to its argument,
+		// which wraps around for the last 62135596800 seconds of the int64 range
+		if x != x || x >= 1<<63 || x < -(1<<63) || Time(x) > 1<<63-1-62135596800 {
 			return fmt.Errorf("oidc.Time: value %v out of range", x)
 		}
 		*ts = Time(x)
